@@ -906,7 +906,13 @@ func (x *Exec) execRange(st *State, s *ast.RangeStmt, label string) *State {
 			i := s2.ghost["$"+idxName].S
 			return []string{fmt.Sprintf("(and (<= 0 %s) (<= %s %s))", i, i, length)}
 		}
-		x.assertInvariants(st, ls, ord, "init", auto(st), s)
+		initSt := st
+		if keyObj != nil {
+			// the key variable reads 0 in the invariant before the first iteration
+			initSt = st.clone()
+			initSt.vars[keyObj] = T{S: "0", Ty: keyObj.Type()}
+		}
+		x.assertInvariants(initSt, ls, ord, "init", auto(st), s)
 		head := st.clone()
 		x.havocLoopTargets(head, nodes, nil, s)
 		hi := x.d.freshName("i_" + idxName)
